@@ -16,26 +16,34 @@ import (
 //
 // A slice that some code grows in place with `x = append(x, …)` (or through a
 // helper that appends to its parameter and returns it) must own the capacity
-// behind its length. Two ways of handing out capacity that belongs to someone
-// else are recognised:
+// behind its length. "Grown in place" is decided per named slice type (Header,
+// Record, RecordSet …) and per slice-typed struct field (`x.f = append(x.f, …)`
+// in some function of lib/query, whatever the field's type is called). Two ways
+// of handing out capacity that belongs to someone else are recognised:
 //   (a) alias: a freshly built object gets such a slice by plain assignment from
 //       another object's field (no copy, no three-index cap), and
 //   (b) slab: several such slices are carved out of one allocation with a
 //       two-index slice expression, so each one's capacity runs into the next.
+//       The allocation is looked for behind the sliced operand through φ, local
+//       and captured variables (closure cells), parameters (to the arguments of
+//       the callers) and results of helpers.
 // An append then writes into memory another owner reads — a data race when the
 // owners are worked on by different goroutines, a corrupted neighbour otherwise.
 
 func init() {
 	Register(&Rule{ID: "R-ALIAS-1", Props: []string{"C13", "C03", "C14", "C12"}, Floor: 1,
-		Doc:      "spare capacity is never shared: for every named slice type of lib/query that is grown in place (a location is assigned append(<its own value>, …), directly or through a helper that appends to its parameter and returns it — today Header, Record, RecordSet …), (a) a freshly built object never receives such a slice by plain assignment from another object's field without a copy or a three-index cap, when the new object is then handed to code that may append, and (b) slices of such a type are never carved out of one shared allocation with a two-index slice expression (each one's capacity would run into its neighbour) — an append through one owner would otherwise write what another owner reads (genuine defect repaired: the per-group views of aggregate evaluation shared the grouped view's header capacity across worker goroutines)",
-		Controls: []string{"CtlSlabRecords", "CtlAliasedHeader"},
+		Doc:      "spare capacity is never shared: for every named slice type of lib/query that is grown in place (a location is assigned append(<its own value>, …), directly or through a helper that appends to its parameter and returns it — today Header, Record, RecordSet …) and for every slice-typed struct field of lib/query that some function grows in place (x.f = append(x.f, …) — today FieldIndexCache.exprs/indices, HeaderField.Aliases, View.selectFields …), (a) a freshly built object never receives such a slice by plain assignment from another object's field (f = other.f, f = other.f[:n], or a copy of the whole struct that is not followed by a replacement of the field) without a copy or a three-index cap, when the new object is then handed to code that appends to that field in place, and (b) slices of such a type are never carved out of one shared allocation with a two-index slice expression (each one's capacity would run into its neighbour) — the allocation is found behind the sliced operand through local and captured variables, parameters (arguments of the callers) and results of helpers; several pieces = the expression sits in a loop that does not contain the allocation, in another function (closure, helper) at a variable offset, or the allocation is sliced more than once — an append through one owner would otherwise write what another owner reads (genuine defect repaired: the per-group views of aggregate evaluation shared the grouped view's header capacity across worker goroutines)",
+		Controls: []string{"CtlSlabRecords", "CtlClosureSlab", "CtlHelperSlab", "CtlAliasedHeader", "CtlAliasedFieldSlice", "CtlAliasedFieldResliced", "CtlStructCopyAlias"},
 		Run:      ruleAlias1})
 }
 
 // appendGrownTypes: named slice types T such that somewhere `loc = append(load loc, …)` with loc of type T, or
-// loc = f(load loc, …) where f returns append(param, …).
-func appendGrownTypes(c *Ctx) map[string]string {
+// loc = f(load loc, …) where f returns append(param, …); and, second result, the struct fields ("pkg.Type.field")
+// of slice type that are the location of such a statement.
+func appendGrownTypes(c *Ctx) (map[string]string, map[string]string, map[*ssa.Store]bool) {
 	out := map[string]string{}
+	fields := map[string]string{}
+	stores := map[*ssa.Store]bool{}
 	// helpers that return append(param…)
 	appenders := map[*ssa.Function]int{}
 	for _, fn := range c.P.FuncsIn(true, "lib/query") {
@@ -75,8 +83,15 @@ func appendGrownTypes(c *Ctx) map[string]string {
 				if !ok {
 					continue
 				}
+				if _, isSlice := st.Val.Type().Underlying().(*types.Slice); !isSlice {
+					continue
+				}
 				n := named(st.Val.Type())
-				if n == "" {
+				fo := ""
+				if fa, ok := st.Addr.(*ssa.FieldAddr); ok {
+					fo = core.FieldOwner(fa)
+				}
+				if n == "" && fo == "" {
 					continue
 				}
 				var grown ssa.Value
@@ -103,14 +118,19 @@ func appendGrownTypes(c *Ctx) map[string]string {
 				}
 				// grown is a load of the location stored to
 				if u, ok := grown.(*ssa.UnOp); ok && u.Op == token.MUL && (u.X == st.Addr || core.SameAddr(u.X, st.Addr) || sameElemAddr(u.X, st.Addr)) {
-					if _, seen := out[n]; !seen {
+					stores[st] = true
+					if _, seen := out[n]; !seen && n != "" {
 						out[n] = c.Pos(st)
+					}
+					// a field counts as grown in place by what the repository does with it, not by what a control does
+					if _, seen := fields[fo]; !seen && fo != "" && !c.P.IsControl(fn) {
+						fields[fo] = c.Pos(st)
 					}
 				}
 			}
 		}
 	}
-	return out
+	return out, fields, stores
 }
 
 func sameElemAddr(a, b ssa.Value) bool {
@@ -122,8 +142,168 @@ func sameElemAddr(a, b ssa.Value) bool {
 	return x.X == y.X || core.SameCell(x.X, y.X)
 }
 
+// aliasDeepOrigins is core.Origins continued across function boundaries inside lib/query: a parameter is replaced
+// by the arguments of the callers (a function of the repository is not judged by what a control passes), the
+// result of a helper by the values the helper returns. Leaves that cannot be followed stay as they are.
+func aliasDeepOrigins(c *Ctx, v ssa.Value, throughSlice bool) []ssa.Value {
+	var out []ssa.Value
+	seen := map[ssa.Value]bool{}
+	work := []ssa.Value{v}
+	steps := 0
+	for len(work) > 0 && steps < 400 {
+		steps++
+		x := work[0]
+		work = work[1:]
+		for _, o := range core.Origins(x, throughSlice) {
+			if seen[o] {
+				continue
+			}
+			seen[o] = true
+			var next []ssa.Value
+			switch y := o.(type) {
+			case *ssa.Parameter:
+				fn := y.Parent()
+				idx := -1
+				for i, q := range fn.Params {
+					if q == y {
+						idx = i
+					}
+				}
+				if idx < 0 || !c.P.InPkg(fn, "lib/query", core.ControlPkg) {
+					break
+				}
+				for _, e := range c.P.RealCallers(fn) {
+					if e.Site == nil {
+						continue
+					}
+					cc := e.Site.Common()
+					args := cc.Args
+					if cc.IsInvoke() {
+						args = append([]ssa.Value{cc.Value}, args...)
+					}
+					if len(args) == len(fn.Params) {
+						next = append(next, args[idx])
+					}
+				}
+			case *ssa.Call, *ssa.Extract:
+				call, idx, ok := core.ExtractOf(y)
+				if !ok {
+					break
+				}
+				g := core.StaticCallee(call)
+				if g == nil || g.Blocks == nil || !c.P.InPkg(g, "lib/query", core.ControlPkg) {
+					break
+				}
+				next = core.ReturnedValues(g, idx)
+			}
+			if len(next) == 0 {
+				out = append(out, o)
+				continue
+			}
+			work = append(work, next...)
+		}
+	}
+	return out
+}
+
+// aliasStructOf: the struct type behind a pointer to a named struct type.
+func aliasStructOf(t types.Type) *types.Struct {
+	p, ok := t.Underlying().(*types.Pointer)
+	if !ok {
+		return nil
+	}
+	st, _ := p.Elem().Underlying().(*types.Struct)
+	return st
+}
+
+// aliasFieldReassigned: after the whole-struct copy `cp`, fn stores something else into field #field of the same
+// new object (on some path that the copy reaches — the usual "copy, then replace what must not be shared").
+func aliasFieldReassigned(fn *ssa.Function, fresh map[ssa.Value]bool, growth map[*ssa.Store]bool, cp *ssa.Store, field int) bool {
+	target := core.Origins(cp.Addr, false)
+	for _, b := range fn.Blocks {
+		for _, in := range b.Instrs {
+			st, ok := in.(*ssa.Store)
+			if !ok || st == cp {
+				continue
+			}
+			fa, ok := st.Addr.(*ssa.FieldAddr)
+			if !ok || fa.Field != field || !isFresh(fresh, fa.X) {
+				continue
+			}
+			same := false
+			for _, o := range core.Origins(fa.X, false) {
+				for _, t := range target {
+					if o == t {
+						same = true
+					}
+				}
+			}
+			if !same {
+				continue
+			}
+			if growth[st] {
+				continue // grown, not replaced
+			}
+			val := st.Val
+			for {
+				if sl, ok := val.(*ssa.Slice); ok && sl.Max == nil {
+					val = sl.X
+				} else if ct, ok := val.(*ssa.ChangeType); ok {
+					val = ct.X
+				} else {
+					break
+				}
+			}
+			if u, ok := val.(*ssa.UnOp); ok && u.Op == token.MUL {
+				if da, ok := u.X.(*ssa.FieldAddr); ok && da.Field == field {
+					continue // the same slice again (its own, or the donor's by plain assignment)
+				}
+			}
+			if core.Reachable(cp, st, nil) {
+				return true
+			}
+		}
+	}
+	return false
+}
+
+// severalPieces: the two-index slice expression sl of the allocation slab is evaluated for more than one piece.
+func severalPieces(sl *ssa.Slice, slab *ssa.MakeSlice, distinct int) bool {
+	if distinct >= 2 {
+		return true
+	}
+	pieces := 0
+	for _, r := range *slab.Referrers() {
+		if _, ok := r.(*ssa.Slice); ok {
+			pieces++
+		}
+	}
+	if pieces >= 2 {
+		return true
+	}
+	if sl.Parent() != slab.Parent() {
+		// another function (a closure that captured the allocation, a helper that was handed it): it runs once per
+		// piece when the piece lies at a variable offset, or when the expression is in a loop of that function
+		if inLoop(sl) {
+			return true
+		}
+		if sl.Low == nil {
+			return false
+		}
+		_, isConst := sl.Low.(*ssa.Const)
+		return !isConst
+	}
+	// same function: in a loop that does not make a new allocation on every round
+	for _, l := range core.NaturalLoops(sl.Parent()) {
+		if l.Blocks[sl.Block()] && !l.Blocks[slab.Block()] {
+			return true
+		}
+	}
+	return false
+}
+
 func ruleAlias1(c *Ctx) {
-	grown := appendGrownTypes(c)
+	grown, grownFields, growth := appendGrownTypes(c)
 	if len(grown) == 0 {
 		c.Unknown("append-grown types", "-", "cannot-analyse: no named slice type of lib/query is grown in place with append")
 		return
@@ -133,6 +313,11 @@ func ruleAlias1(c *Ctx) {
 		names = append(names, n)
 	}
 	sort.Strings(names)
+	var fnames []string
+	for n := range grownFields {
+		fnames = append(fnames, n)
+	}
+	sort.Strings(fnames)
 	typeName := func(t types.Type) string {
 		if n, ok := t.(*types.Named); ok && n.Obj().Pkg() != nil {
 			return core.Short(n.Obj().Pkg().Path()) + "." + n.Obj().Name()
@@ -140,9 +325,45 @@ func ruleAlias1(c *Ctx) {
 		return ""
 	}
 	n := 0
+	// (b) candidates are collected first: how many different pieces are cut out of one allocation is part of the test
+	type slabCand struct {
+		fn   *ssa.Function
+		st   *ssa.Store
+		sl   *ssa.Slice
+		slab *ssa.MakeSlice
+		tn   string
+	}
+	var cands []slabCand
+	// the two-index slice expressions of a grown type whose operand is (part of) an allocation made in lib/query
+	piecesOf := map[*ssa.MakeSlice]map[*ssa.Slice]bool{}
+	slabOf := map[*ssa.Slice][]*ssa.MakeSlice{}
+	for _, fn := range c.P.FuncsIn(true, "lib/query") {
+		for _, b := range fn.Blocks {
+			for _, in := range b.Instrs {
+				sl, ok := in.(*ssa.Slice)
+				if !ok || sl.Max != nil || sl.High == nil {
+					continue
+				}
+				if _, isGrown := grown[typeName(sl.Type())]; !isGrown {
+					continue
+				}
+				for _, oo := range aliasDeepOrigins(c, sl.X, true) {
+					slab, ok := oo.(*ssa.MakeSlice)
+					if !ok {
+						continue
+					}
+					if piecesOf[slab] == nil {
+						piecesOf[slab] = map[*ssa.Slice]bool{}
+					}
+					piecesOf[slab][sl] = true
+					slabOf[sl] = append(slabOf[sl], slab)
+				}
+			}
+		}
+	}
 	for _, fn := range c.P.FuncsIn(true, "lib/query") {
 		fresh := freshObjects(fn)
-		ka, kb := 0, 0
+		ka := 0
 		for _, b := range fn.Blocks {
 			for _, in := range b.Instrs {
 				st, ok := in.(*ssa.Store)
@@ -150,59 +371,111 @@ func ruleAlias1(c *Ctx) {
 					continue
 				}
 				tn := typeName(st.Val.Type())
-				if _, isGrown := grown[tn]; !isGrown {
-					continue
-				}
+				_, isGrown := grown[tn]
 				// (a) fresh.F = donor.F, and the new object can reach code that appends to its F
 				if fa, ok := st.Addr.(*ssa.FieldAddr); ok && isFresh(fresh, fa.X) {
-					if u, ok := st.Val.(*ssa.UnOp); ok && u.Op == token.MUL {
+					what, eg := tn+" values are", grown[tn]
+					if !isGrown {
+						if pos, ok := grownFields[core.FieldOwner(fa)]; ok {
+							what, eg = "the field "+core.FieldOwner(fa)+" is", pos
+						} else {
+							what = ""
+						}
+					}
+					// donor.F, donor.F[:], donor.F[:n] all come with the donor's spare capacity; donor.F[:n:n] does not
+					val := st.Val
+					for {
+						if sl, ok := val.(*ssa.Slice); ok && sl.Max == nil {
+							val = sl.X
+						} else if ct, ok := val.(*ssa.ChangeType); ok {
+							val = ct.X
+						} else {
+							break
+						}
+					}
+					if u, ok := val.(*ssa.UnOp); ok && what != "" && u.Op == token.MUL {
 						if da, ok := u.X.(*ssa.FieldAddr); ok && !isFresh(fresh, da.X) {
-							sink := appendReachable(c, fa.X, core.FieldOwner(fa))
+							sink := appendReachable(c, growth, fa.X, core.FieldOwner(fa))
 							if sink == "" {
 								continue
 							}
 							ka++
 							n++
 							c.Touch(fn)
-							key := c.KeyAt(fn, fmt.Sprintf("alias #%d: %s of a new object taken from another object's field", ka, tn))
-							c.Bad(key, c.Pos(st), "the new object reaches "+sink+"; "+fmt.Sprintf("the new object's %s is the other object's slice itself (same backing array, same spare capacity); %s values are grown in place (e.g. %s), so an append through the new object writes into capacity the donor — and every sibling built from it — also owns: copy it or cap it with a three-index slice", core.FieldName(fa), tn, grown[tn]))
+							label := tn
+							if !isGrown {
+								label = core.FieldOwner(fa)
+							}
+							key := c.KeyAt(fn, fmt.Sprintf("alias #%d: %s of a new object taken from another object's field", ka, label))
+							c.Bad(key, c.Pos(st), "the new object reaches "+sink+"; "+fmt.Sprintf("the new object's %s is the other object's slice itself (same backing array, same spare capacity); %s grown in place (e.g. %s), so an append through the new object writes into capacity the donor — and every sibling built from it — also owns: copy it or cap it with a three-index slice", core.FieldName(fa), what, eg))
 							continue
 						}
 					}
 				}
-				// (b) slab: two-index slice of a local allocation stored as an element / field
-				sl, ok := st.Val.(*ssa.Slice)
-				if !ok || sl.Max != nil || sl.High == nil {
-					continue
-				}
-				slab, ok := sl.X.(*ssa.MakeSlice)
-				if !ok {
-					if ct, ok2 := sl.X.(*ssa.ChangeType); ok2 {
-						slab, ok = ct.X.(*ssa.MakeSlice)
+				// (a') *fresh = *donor: every slice field comes along, unless the function gives the new object its own
+				if u, ok := st.Val.(*ssa.UnOp); ok && u.Op == token.MUL && isFresh(fresh, st.Addr) {
+					if sty := aliasStructOf(st.Addr.Type()); sty != nil && !isFresh(fresh, u.X) && core.NamedOf(st.Addr.Type()) != "" {
+						for i := 0; i < sty.NumFields(); i++ {
+							owner := core.NamedOf(st.Addr.Type()) + "." + sty.Field(i).Name()
+							eg, isF := grownFields[owner]
+							if !isF {
+								if eg, isF = grown[typeName(sty.Field(i).Type())]; !isF {
+									continue
+								}
+							}
+							if aliasFieldReassigned(fn, fresh, growth, st, i) {
+								continue
+							}
+							sink := appendReachable(c, growth, st.Addr, owner)
+							if sink == "" {
+								continue
+							}
+							ka++
+							n++
+							c.Touch(fn)
+							key := c.KeyAt(fn, fmt.Sprintf("alias #%d: %s of a new object taken from another object's field", ka, owner))
+							c.Bad(key, c.Pos(st), "the new object reaches "+sink+"; "+fmt.Sprintf("the new object is a copy of the whole struct, so its %s is the other object's slice itself (same backing array, same spare capacity), and the function does not replace it afterwards; %s is grown in place (e.g. %s), so an append through the new object writes into capacity the donor — and every sibling built from it — also owns: copy it or cap it with a three-index slice", sty.Field(i).Name(), owner, eg))
+						}
 					}
 				}
-				if !ok || slab == nil {
+				if !isGrown {
 					continue
 				}
-				// several pieces: the slice expression sits in a loop, or the slab is sliced more than once
-				pieces := 0
-				for _, r := range *slab.Referrers() {
-					if _, ok := r.(*ssa.Slice); ok {
-						pieces++
+				// (b) slab: a two-index slice of an allocation stored as an element / field / variable
+				if len(slabOf) == 0 {
+					continue
+				}
+				for _, o := range aliasDeepOrigins(c, st.Val, false) {
+					sl, ok := o.(*ssa.Slice)
+					if !ok {
+						continue
+					}
+					for _, slab := range slabOf[sl] {
+						cands = append(cands, slabCand{fn, st, sl, slab, tn})
 					}
 				}
-				if pieces < 2 && !inLoop(sl) {
-					continue
-				}
-				kb++
-				n++
-				c.Touch(fn)
-				key := c.KeyAt(fn, fmt.Sprintf("slab #%d: %s carved out of one allocation", kb, tn))
-				c.Bad(key, c.Pos(st), fmt.Sprintf("pieces of one allocation (made at %s) are handed out as %s values with a two-index slice expression: the capacity of each piece runs into the next piece, and %s values are grown in place (e.g. %s) — an append to one record overwrites the first cells of its neighbour; use slab[lo:hi:hi]", c.Pos(slab), tn, tn, grown[tn]))
 			}
 		}
 	}
-	c.Ok("append-grown slice types: "+strings.Join(names, ", "), "-", fmt.Sprintf("%d types are grown in place; %d capacity-sharing stores found", len(names), n))
+	reported := map[*ssa.Slice]bool{}
+	kb := map[*ssa.Function]int{}
+	for _, cd := range cands {
+		if reported[cd.sl] || !severalPieces(cd.sl, cd.slab, len(piecesOf[cd.slab])) {
+			continue
+		}
+		reported[cd.sl] = true
+		kb[cd.fn]++
+		n++
+		c.Touch(cd.fn)
+		tn := cd.tn
+		key := c.KeyAt(cd.fn, fmt.Sprintf("slab #%d: %s carved out of one allocation", kb[cd.fn], tn))
+		where := ""
+		if cd.sl.Parent() != cd.fn {
+			where = fmt.Sprintf(" (the slice expression is at %s)", c.Pos(cd.sl))
+		}
+		c.Bad(key, c.Pos(cd.st), fmt.Sprintf("pieces of one allocation (made at %s) are handed out as %s values with a two-index slice expression%s: the capacity of each piece runs into the next piece, and %s values are grown in place (e.g. %s) — an append to one record overwrites the first cells of its neighbour; use slab[lo:hi:hi]", c.Pos(cd.slab), tn, where, tn, grown[tn]))
+	}
+	c.Ok("append-grown slice types: "+strings.Join(names, ", "), "-", fmt.Sprintf("%d types and %d struct fields (%s) are grown in place; %d capacity-sharing stores found", len(names), len(fnames), strings.Join(fnames, ", "), n))
 }
 
 // freshObjects: pointers to objects allocated in fn (Alloc of a struct, or the result of a New… constructor call).
@@ -243,7 +516,7 @@ func isFresh(fresh map[ssa.Value]bool, v ssa.Value) bool {
 // appendReachable follows the object `start` (a pointer) through lib/query — results to callers, arguments to
 // parameters, φ and cells, and, field-based, through every struct field it is stored into — and returns a
 // description of a place where the slice field `owner` of the followed object is grown in place, or "".
-func appendReachable(c *Ctx, start ssa.Value, owner string) string {
+func appendReachable(c *Ctx, growth map[*ssa.Store]bool, start ssa.Value, owner string) string {
 	tracked := map[ssa.Value]bool{}
 	heapFields := map[string]bool{} // "pkg.Type.field" the object was stored into
 	var work []ssa.Value
@@ -319,7 +592,7 @@ func appendReachable(c *Ctx, start ssa.Value, owner string) string {
 					// a store of append(…)/appender result into tracked.F
 					for _, rr := range *x.Referrers() {
 						if st, ok := rr.(*ssa.Store); ok && st.Addr == ssa.Value(x) {
-							if isGrowth(st.Val) {
+							if growth[st] {
 								return fmt.Sprintf("%s, which grows its %s in place (%s)", c.P.Name(x.Parent()), core.FieldName(x), c.Pos(st))
 							}
 						}
@@ -373,21 +646,6 @@ func appendReachable(c *Ctx, start ssa.Value, owner string) string {
 		}
 	}
 	return ""
-}
-
-// isGrowth: append(…) or the result of a helper call (the store sites were selected by appendGrownTypes' criteria).
-func isGrowth(v ssa.Value) bool {
-	switch x := v.(type) {
-	case *ssa.Call:
-		if b, ok := x.Call.Value.(*ssa.Builtin); ok {
-			return b.Name() == "append"
-		}
-		return true
-	case *ssa.Extract:
-		_, ok := x.Tuple.(*ssa.Call)
-		return ok
-	}
-	return false
 }
 
 // R-PAR-12 --------------------------------------------------------------------
